@@ -1,4 +1,7 @@
-(* C15 - property theorems: proxy services relay unchanged to the configured backend. *)
+(* C15 - property theorems: proxy services relay unchanged to the configured backend.
+   The model is of the repaired code (http-proxy: one reader per leg, no added User-Agent,
+   no stray CRLF after a HEAD reply; copy/dns-proxy: dispatch on the local address;
+   ssh-proxy: the request goroutine closes nothing). *)
 From HT Require Import Common.Bytes C15.Model C15.Proofs.
 From Coq Require Import Permutation.
 Open Scope Z_scope.
@@ -26,21 +29,30 @@ Proof. exact dial_unsupported. Qed.
 
 (* ---- http-proxy ---- *)
 
-(* Requests that never share a write (lock-step clients, and clients that pipeline but
-   write each request separately): for ALL segmentations of every request on the client
-   leg and of every reply on the backend leg, the backend receives every request, the
-   client every reply, in order, each exactly once (modulo the re-serialisation contract
-   below), and Handle ends cleanly when the client closes. *)
-Theorem C15_http_lockstep_relay : forall exs,
-  exs_ok 0 exs ->
-  exists s, run (flat_map items_of exs) (st0 (map x_rsegs exs)) = (s, EEof) /\
-    rev (s_fwd s) = map (fun e => reser_req (x_req e)) exs /\
-    rev (s_del s) = map (fun e => reser_resp (x_resp e)) exs /\
-    s_recvd s = N.of_nat (length exs) /\ s_written s = N.of_nat (length exs) /\ s_broken s = false.
-Proof. exact relay_aligned. Qed.
+(* For ALL segmentations of the client's byte stream - requests cut anywhere, several
+   requests or parts of them in one write (pipelining), waits wherever the client is
+   entitled to one - and ALL segmentations of every reply on the backend leg: the requests
+   reaching the backend are the requests sent, the replies reaching the client are the
+   replies sent, in order, each once (modulo the re-serialisation contract below), and
+   Handle ends cleanly when the client closes. *)
+Theorem C15_http_relay_all_segmentations : forall exs its,
+  Forall ex_ok exs -> stream_of its = stream exs -> waits_ok (lens_of exs) 0 its ->
+  exists s, run its (st0 (map x_rsegs exs)) = (s, EEof) /\
+    rev (s_fwd s) = fwd_of exs /\ rev (s_del s) = del_of exs /\ s_recvd s = N.of_nat (length exs).
+Proof. exact relay_all_segmentations. Qed.
 
-(* the hypotheses of the theorem hold of the concrete framing: a length-framed request /
-   a length-framed or bodiless reply that parses as exactly itself is self-delimiting *)
+(* the loop's fuel never runs out *)
+Theorem C15_http_fuel_suffices : forall fuel s,
+  (length (s_buf s) < fuel)%nat -> snd (drain fuel s) <> Some EFuel.
+Proof. exact drain_fuel_suffices. Qed.
+
+(* the hypotheses hold of the concrete framing: whatever follows a request that parses as
+   exactly itself, it is framed the same (chunked or not); a length-framed request and a
+   length-framed or bodiless reply have no complete proper prefix *)
+Theorem C15_http_framing_extension_stable : forall msg m x,
+  frame_req msg = QComplete (length msg) m -> frame_req (msg ++ x) = QComplete (length msg) m.
+Proof. exact frame_req_extend. Qed.
+
 Theorem C15_http_framing_self_delimiting_req : forall msg m,
   frame_req msg = QComplete (length msg) m -> r_chunked m = false -> sd_req msg m.
 Proof. exact frame_req_sd. Qed.
@@ -51,18 +63,17 @@ Theorem C15_http_framing_self_delimiting_resp : forall h raw p,
 Proof. exact frame_resp_sd. Qed.
 
 (* re-serialisation by net/http, as modelled: method, target, host, body and transfer
-   coding unchanged; the header fields are a permutation of the client's - after the
-   User-Agent rule (see C15_http_user_agent_refuted) and the Pragma rule (pragma_fix) *)
+   coding unchanged; the header fields are a permutation of the client's after the
+   parser's Pragma rule (pragma_fix) ... *)
 Theorem C15_http_reserialisation_contract : forall m,
   let m' := reser_req m in
   r_method m' = r_method m /\ r_target m' = r_target m /\ r_host m' = r_host m /\
   r_chunked m' = r_chunked m /\ r_body m' = r_body m /\
-  Permutation (r_headers m') (ua_fix (pragma_fix (r_headers m))).
+  Permutation (r_headers m') (pragma_fix (r_headers m)).
 Proof. exact reser_req_contract. Qed.
 
-(* a request with a non-empty User-Agent and without a lone "Pragma" keeps exactly its fields *)
-Theorem C15_http_request_headers_kept : forall m v,
-  hget S_UA (r_headers m) = Some v -> v <> [] ->
+(* ... so a request without a lone "Pragma" keeps exactly its fields *)
+Theorem C15_http_request_headers_kept : forall m,
   hget S_PRAGMA (r_headers m) = None \/ hget S_CC (r_headers m) <> None ->
   Permutation (r_headers (reser_req m)) (r_headers m).
 Proof. exact reser_req_same_headers. Qed.
@@ -79,65 +90,50 @@ Theorem C15_http_reply_contract : forall p,
   Permutation (p_headers p') (pragma_fix (p_headers p)).
 Proof. exact reser_resp_contract. Qed.
 
-(* defects of the unchanged code (the model is faithful to them) *)
-Theorem C15_http_pipelined_refuted :
-  exists a b ma mb reply p,
-    sd_req a ma /\ sd_req b mb /\ sd_resp false reply p /\
-    exists s, run [ISeg (a ++ b); IWait 2%N] (st0 [[reply]; [reply]]) = (s, EGaveUp) /\
-              rev (s_fwd s) = [reser_req ma] /\ s_recvd s = 1%N.
-Proof. exact pipelined_refuted. Qed.
-
-(* the defect in general: whatever follows a (length-framed) request in the same write -
-   a second request, part of one, anything - is read into the reader's buffer and dropped
-   with it: the run is the same as if the write had ended with the request *)
-Theorem C15_http_readahead_dropped : forall msg m x rest s,
-  frame_req msg = QComplete (length msg) m -> r_chunked m = false -> s_buf s = [] ->
-  run (ISeg (msg ++ x) :: rest) s = run (ISeg msg :: rest) s.
-Proof. exact readahead_dropped_eq. Qed.
-
-Theorem C15_http_user_agent_refuted :
-  exists msg m, sd_req msg m /\ hget S_UA (r_headers m) = None /\
-                hget S_UA (r_headers (reser_req m)) = Some S_GOUA.
-Proof. exact user_agent_refuted. Qed.
-
-Theorem C15_http_head_chunked_refuted :
-  exists a b ma mb r1 p1 r2 p2,
-    sd_req a ma /\ sd_req b mb /\ sd_resp true r1 p1 /\ sd_resp false r2 p2 /\
-    exists s, run [ISeg a; IWait 1%N; ISeg b; IWait 2%N] (st0 [[r1]; [r2]]) = (s, EGaveUp) /\
-              s_broken s = true /\ length (s_fwd s) = 2%nat /\ s_written s = 2%N /\ length (s_del s) = 1%nat.
-Proof. exact head_chunked_refuted. Qed.
+(* what remains a defect (net/http's parser, the model is faithful to it): a message that
+   only says "Pragma: no-cache" arrives with an added "Cache-Control: no-cache" *)
+Theorem C15_http_pragma_refuted :
+  exists msg m, sd_req msg m /\ hget S_CC (r_headers m) = None /\
+                hget S_CC (r_headers (reser_req m)) = Some S_NOCACHE.
+Proof. exact pragma_refuted. Qed.
 
 (* ---- copy, dns-proxy ---- *)
 
-(* what the server hands to Handle is always its timeout wrapper: the type switch takes
-   the default branch and nothing is relayed - for every connection and payload *)
-Theorem C15_copy_behind_server_relays_nothing : forall peeked accepted segs reply,
-  copy_model (server_wrap peeked accepted) segs reply = raw_nothing.
-Proof. exact copy_behind_server. Qed.
+(* the dispatch looks at the connection's local address, which the server's timeout and
+   peek wrappers pass through: behind them it is what it is for the accepted connection *)
+Theorem C15_switch_sees_through_server_wrappers : forall peeked accepted,
+  type_switch (server_wrap peeked accepted) = type_switch accepted.
+Proof. exact switch_behind_server. Qed.
 
-Theorem C15_dns_behind_server_relays_nothing : forall peeked accepted d parses reply,
-  dns_model (server_wrap peeked accepted) d parses reply = raw_nothing.
-Proof. exact dns_behind_server. Qed.
+(* copy behind the server: a stream is relayed unchanged in both directions, a datagram is
+   forwarded and one reply returned; one backend connection, one event *)
+Theorem C15_copy_stream_relayed : forall peeked accepted segs reply, local_kind accepted = ATcp ->
+  copy_model (server_wrap peeked accepted) segs reply = mkRaw 1 segs reply 1.
+Proof. exact copy_stream_behind_server. Qed.
 
-Theorem C15_copy_relays_refuted :
-  exists segs reply, concat segs <> [] /\
-    w_backend (copy_model (server_wrap false KTcpConn) segs reply) = [] /\
-    w_backend (copy_model (server_wrap false KDummyUdp) segs reply) = [].
-Proof. exact copy_relays_refuted. Qed.
+Theorem C15_copy_datagram_relayed : forall peeked accepted d reply more, local_kind accepted = AUdp ->
+  copy_model (server_wrap peeked accepted) [d] (reply :: more) = mkRaw 1 [d ++ []] [reply] 1.
+Proof. exact copy_datagram_behind_server. Qed.
 
-Theorem C15_dns_relays_refuted :
-  exists d reply, d <> [] /\ w_backend (dns_model (server_wrap false KDummyUdp) d true (Some reply)) = [].
-Proof. exact dns_relays_refuted. Qed.
+(* dns-proxy behind the server: a datagram that is a DNS message is forwarded, its reply
+   returned, one event *)
+Theorem C15_dns_datagram_relayed : forall peeked accepted d reply more got, local_kind accepted = AUdp ->
+  dns_model (server_wrap peeked accepted) [d] true (reply :: more) got = mkRaw 1 [d ++ []] [reply] 1.
+Proof. exact dns_datagram_behind_server. Qed.
 
-(* outside the defect: given the accepted connection itself, both directions are
-   relayed unchanged over one backend connection, with one event *)
-Theorem C15_copy_unwrapped_relays : forall k segs reply, k = KTcpConn \/ k = KDummyUdp ->
-  copy_model k segs reply = mkRaw 1 segs reply 1.
-Proof. exact copy_bare. Qed.
+(* what remains a defect: a datagram that is not a DNS message is forwarded, but neither
+   recorded nor is a reply returned ... *)
+Theorem C15_dns_datagram_not_dns_unrecorded : forall peeked accepted d reply got, local_kind accepted = AUdp ->
+  dns_model (server_wrap peeked accepted) [d] false reply got = mkRaw 1 [d ++ []] [] 0.
+Proof. exact dns_datagram_not_dns. Qed.
 
-Theorem C15_dns_unwrapped_relays : forall d reply,
-  dns_model KDummyUdp d true (Some reply) = mkRaw 1 [d] [reply] 1.
-Proof. exact dns_bare. Qed.
+(* ... and over a stream dns-proxy does one Read each way: only the client's first write
+   reaches the backend (nothing if it does not parse), only one Read's worth of the reply
+   the client *)
+Theorem C15_dns_stream_single_read : forall peeked accepted q more reply got, local_kind accepted = ATcp ->
+  dns_model (server_wrap peeked accepted) (q :: more) true reply got = mkRaw 1 [q] [firstn got (concat reply)] 1 /\
+  dns_model (server_wrap peeked accepted) (q :: more) false reply got = raw_nothing.
+Proof. exact dns_stream_single_read. Qed.
 
 (* ---- ssh-proxy (message level) ---- *)
 
@@ -159,33 +155,26 @@ Theorem C15_ssh_relay_order : forall msgs sched,
   Permutation (ssh_relay msgs sched) msgs.
 Proof. exact ssh_relay_order. Qed.
 
-(* but the order between a request and the data around it is not kept *)
-Theorem C15_ssh_cross_order_refuted : exists msgs sched, ssh_relay msgs sched <> msgs.
+(* the order between a request and the data around it is not kept (not part of the
+   property: requests and data are two ordered streams) *)
+Theorem C15_ssh_cross_order_not_kept : exists msgs sched, ssh_relay msgs sched <> msgs.
 Proof. exact ssh_cross_order_refuted. Qed.
 
-(* closing a channel: whichever goroutine wins, what the other side receives is a prefix of
-   what was sent (nothing altered or reordered); complete when the copier is not pre-empted;
-   but the closing goroutine can pre-empt it (defect: truncated output) *)
-Theorem C15_ssh_early_close_delivers_prefix : forall chunks sched,
-  exists rest, concat chunks = relay_until_close chunks sched ++ rest.
-Proof. exact relay_until_close_prefix. Qed.
-
-Theorem C15_ssh_no_early_close_delivers_all : forall chunks sched,
-  (length chunks <= length sched)%nat -> Forall (fun b => b = true) sched ->
+(* closing a channel: everything written before the close is delivered, for every
+   interleaving of the data copier with the end of the request goroutine *)
+Theorem C15_ssh_close_delivers_all : forall chunks sched,
   relay_until_close chunks sched = concat chunks.
-Proof. exact relay_until_close_complete. Qed.
-
-Theorem C15_ssh_early_close_refuted : exists chunks sched, relay_until_close chunks sched <> concat chunks.
-Proof. exact early_close_refuted. Qed.
+Proof. exact relay_until_close_all. Qed.
 
 (* non-vacuity *)
-Example C15_lockstep_hypotheses_satisfiable : exs_ok 0 EXS.
+Example C15_relay_hypotheses_satisfiable :
+  Forall ex_ok EXS /\ stream_of EXS_ITEMS = stream EXS /\ waits_ok (lens_of EXS) 0 EXS_ITEMS.
 Proof. exact exs_example_ok. Qed.
 
-Example C15_pipelined_one_write_each_is_relayed :
-  exists s, run [ISeg W_REQ_A; ISeg W_REQ_B; IWait 2%N] (st0 [[W_REPLY]; [W_REPLY]]) = (s, EEof) /\
+Example C15_pipelined_in_one_write_is_relayed :
+  exists s, run [ISeg (W_REQ_A ++ W_REQ_B); IWait 2%N] (st0 [[W_REPLY]; [W_REPLY]]) = (s, EEof) /\
             rev (s_fwd s) = [reser_req (parsed_req W_REQ_A); reser_req (parsed_req W_REQ_B)] /\ s_recvd s = 2%N.
-Proof. exact pipelined_aligned_example. Qed.
+Proof. exact pipelined_example. Qed.
 
 Example C15_dial_examples :
   dial_model [49;50;55;46;48;46;48;46;49;58;56;48]%N LTcp 22 = DAddr LTcp [49;50;55;46;48;46;48;46;49]%N 80 /\
@@ -197,26 +186,23 @@ Proof. vm_compute. repeat split. Qed.
 Print Assumptions C15_dial_only_backend.
 Print Assumptions C15_dial_address_from_config.
 Print Assumptions C15_dial_unsupported_local_address.
-Print Assumptions C15_http_lockstep_relay.
+Print Assumptions C15_http_relay_all_segmentations.
+Print Assumptions C15_http_fuel_suffices.
+Print Assumptions C15_http_framing_extension_stable.
 Print Assumptions C15_http_framing_self_delimiting_req.
 Print Assumptions C15_http_framing_self_delimiting_resp.
 Print Assumptions C15_http_reserialisation_contract.
 Print Assumptions C15_http_request_headers_kept.
+Print Assumptions C15_http_repeated_fields_keep_order.
 Print Assumptions C15_http_reply_contract.
-Print Assumptions C15_http_pipelined_refuted.
-Print Assumptions C15_http_user_agent_refuted.
-Print Assumptions C15_http_head_chunked_refuted.
-Print Assumptions C15_copy_behind_server_relays_nothing.
-Print Assumptions C15_dns_behind_server_relays_nothing.
-Print Assumptions C15_copy_relays_refuted.
-Print Assumptions C15_dns_relays_refuted.
-Print Assumptions C15_copy_unwrapped_relays.
-Print Assumptions C15_dns_unwrapped_relays.
+Print Assumptions C15_http_pragma_refuted.
+Print Assumptions C15_switch_sees_through_server_wrappers.
+Print Assumptions C15_copy_stream_relayed.
+Print Assumptions C15_copy_datagram_relayed.
+Print Assumptions C15_dns_datagram_relayed.
+Print Assumptions C15_dns_datagram_not_dns_unrecorded.
+Print Assumptions C15_dns_stream_single_read.
 Print Assumptions C15_ssh_auth_forwarded_as_presented.
 Print Assumptions C15_ssh_relay_order.
-Print Assumptions C15_ssh_cross_order_refuted.
-Print Assumptions C15_ssh_early_close_delivers_prefix.
-Print Assumptions C15_ssh_no_early_close_delivers_all.
-Print Assumptions C15_ssh_early_close_refuted.
-Print Assumptions C15_http_readahead_dropped.
-Print Assumptions C15_http_repeated_fields_keep_order.
+Print Assumptions C15_ssh_cross_order_not_kept.
+Print Assumptions C15_ssh_close_delivers_all.
